@@ -561,6 +561,9 @@ fn history(args: &Args) {
     let checker_every = args.u64("checker_every", 1) as usize;
     let mut log = GraphLogger::new();
     let mut outcomes: BTreeMap<String, u64> = BTreeMap::new();
+    // node operations that were part of a successful transaction (projection for the driver's non-vacuity check)
+    let mut ops_ok: BTreeMap<String, u64> = BTreeMap::new();
+    let mut force_checker = false;
     for run in 0..runs {
         let mut rng = StdRng::seed_from_u64(seed.wrapping_add(run as u64 * 7919));
         let mut ledger = crate::limits::new_ledger();
@@ -571,8 +574,16 @@ fn history(args: &Args) {
         let mut resources: Vec<ResourceAddress> = vec![XRD];
         let mut step = 0usize;
         let mut forced_virtual = false;
-        // a small fixed prologue so that every run has components, accounts and resources
+        // a small fixed prologue so that every run has components, accounts and resources; in run 0 it is
+        // followed by the CATALOGUE: fixed programs that exercise every node operation and every refusal of
+        // the kernel/system at least once, independent of the seed (action 99; the repository's checkers
+        // run after each of them)
         let mut todo: Vec<u32> = vec![0, 0, 1, 1, 2];
+        let mut catalogue: Vec<Vec<GOp>> = if run == 0 { catalogue_programs() } else { vec![] };
+        catalogue.reverse();
+        for _ in 0..catalogue.len() {
+            todo.insert(0, 99);
+        }
         while step < len {
             let action = todo.pop().unwrap_or_else(|| rng.gen_range(0..12));
             let (label, receipt): (String, TransactionReceipt) = match action {
@@ -640,7 +651,9 @@ fn history(args: &Args) {
                         continue;
                     }
                     let comp = comps[rng.gen_range(0..comps.len())];
-                    let mut ops = random_gops(&mut rng);
+                    let from_catalogue = action == 99;
+                    let mut ops = if from_catalogue { catalogue.pop().unwrap() } else { random_gops(&mut rng) };
+                    let comp = if from_catalogue { comps[0] } else { comp };
                     let mut globals: Vec<GlobalAddress> = vec![ledger.faucet_component(), XRD.into(), pkg.into(), CONSENSUS_MANAGER.into()];
                     globals.extend(comps.iter().map(|c| GlobalAddress::from(*c)));
                     globals.extend(accounts.iter().map(|a| GlobalAddress::from(a.1)));
@@ -649,7 +662,7 @@ fn history(args: &Args) {
                     if run % 2 == 1 {
                         let pk = Secp256k1PrivateKey::from_u64(rng.gen_range(5000..6000u64)).unwrap().public_key();
                         globals.push(ComponentAddress::preallocated_account_from_public_key(&pk).into());
-                        if !forced_virtual {
+                        if !forced_virtual && !from_catalogue {
                             // once per odd run for sure: a stored reference to an address without state
                             forced_virtual = true;
                             ops = vec![GOp::StoreRef(0, globals.len() - 1)];
@@ -663,6 +676,15 @@ fn history(args: &Args) {
                     let r = ledger.execute_manifest(b.build(), vec![]);
                     if let TransactionResult::Commit(c) = &r.result {
                         comps.extend(c.new_component_addresses().iter().cloned());
+                        if matches!(c.outcome, TransactionOutcome::Success(_)) {
+                            let ops = GST.with(|s| s.borrow().ops.clone());
+                            for o in &ops {
+                                *ops_ok.entry(variant_name(&format!("{:?}", o))).or_default() += 1;
+                            }
+                        }
+                    }
+                    if from_catalogue {
+                        force_checker = true;
                     }
                     (label, r)
                 }
@@ -671,12 +693,46 @@ fn history(args: &Args) {
             *outcomes.entry(format!("{}:{}", status, class)).or_default() += 1;
             if matches!(receipt.result, TransactionResult::Commit(_)) {
                 step += 1;
-                log.commit(ledger.substate_db(), &label, &status, step % checker_every == 0);
+                log.commit(ledger.substate_db(), &label, &status, force_checker || step % checker_every == 0);
             }
+            force_checker = false;
         }
     }
-    log.out.emit(&json!({"a": "summary", "outcomes": outcomes, "commits": log.commits, "max_nodes": log.max_nodes}));
+    log.out.emit(&json!({"a": "summary", "outcomes": outcomes, "ops_ok": ops_ok, "commits": log.commits, "max_nodes": log.max_nodes}));
     log.out.flush();
+}
+
+/// Fixed programs for one G component (executed in this order, the state accumulates): every node
+/// operation in a transaction that succeeds, and every way a transaction is refused half-way.
+fn catalogue_programs() -> Vec<Vec<GOp>> {
+    use GOp::*;
+    vec![
+        vec![],
+        vec![NewObj(0), StoreInKv(1, 0)],                                  // object into a KV entry
+        vec![NewObj(0), StoreInKv(1, 0)],                                  // overwrite an entry that owns a node: refused
+        vec![RemoveKv(1)],                                                 // remove an entry that owns a node: refused
+        vec![NewObj(0), StoreInField(0)],                                  // object into the field
+        vec![ClearField],                                                  // drop a stored own: refused
+        vec![NewObj(0), StoreInField(0)],                                  // overwrite the owning field: refused
+        vec![NewKv(0), NewObj(1), PutInKv(0, 1, 1), StoreInKv(2, 0)],      // heap KV store with an object inside, moved to the store
+        vec![NewObj(0), NewObj(1), Nest(0, 1), StoreInKv(3, 0)],           // two levels
+        vec![NewObj(0), NewObj(1), NewObj(2), Nest(1, 2), Nest(0, 1), StoreInKv(4, 0)], // three levels
+        vec![NewObj(0), Globalize(0)],
+        vec![NewObj(0), NewObj(1), Nest(0, 1), Globalize(0)],              // a global object that owns a child
+        vec![NewVault(0), StoreInKv(5, 0)],
+        vec![NewKv(0), NewVault(1), PutInKv(0, 0, 1), StoreInKv(6, 0)],    // vault inside a KV store
+        vec![StoreRef(7, 0), StoreRef(8, 1), StoreRef(9, 2), StoreRef(10, 3)], // references to global entities of four kinds
+        vec![NewObj(0), StoreInternalRef(11, 0), Drop(0)],                 // reference to an internal node: refused
+        vec![NewObj(0), StoreTwice(12, 0)],                                // the same node owned twice: refused
+        vec![NewObj(0)],                                                   // leaked object: refused
+        vec![NewKv(0)],                                                    // leaked KV store: refused
+        vec![NewObj(0), StoreInKv(13, 0), Panic],                          // fails after a node was already stored
+        vec![NewObj(0), Drop(0)],
+        vec![NewObj(0), NewObj(1), Nest(0, 1), Drop(0)],                   // dropping a parent hands the child back: leaked, refused
+        vec![NewKv(0), NewKv(1), PutInKv(0, 1, 1), StoreInKv(14, 0)],      // KV store inside a KV store
+        vec![NewObj(0), NewKv(1), Nest(0, 1), StoreInKv(15, 0)],           // object that owns a KV store
+        vec![NewObj(0), NewObj(1), StoreInKv(16, 0), StoreInKv(17, 1), StoreRef(18, 4)], // several stores in one transaction
+    ]
 }
 
 /// (ii) the repository's transaction scenarios, every protocol version from genesis to the latest
